@@ -75,10 +75,17 @@ static int conn_index(xmpp_conn_t *c)
     return -1;
 }
 
+static int act_misuse;
+
 static void do_act(const act_t *a)
 {
     xmpp_conn_t *c = (a->c >= 0 && a->c < NC && hc[a->c]) ? hc[a->c]->conn : NULL;
     void *ud = &ud_slot[a->u];
+    if (!c && a->kind != 3 && a->kind != 7 && a->kind != 9) {
+        /* a callback scripted to act on a connection while none exists (`firetimed0`): an invalid case */
+        act_misuse = 1;
+        return;
+    }
     switch (a->kind) {
     case 0:
         xmpp_handler_add(c, SF[a->f], a->s[0], a->s[1], a->s[2], ud);
@@ -555,6 +562,13 @@ int eng_hnd(FILE *in, FILE *out)
         } else if (n == 1 && !strcmp(tok[0], "firetimed")) {
             handler_fire_timed(g_ctx);
             fprintf(out, "= ok");
+        } else if (n == 1 && !strcmp(tok[0], "firetimed0")) {
+            /* the context without any connection object: context-wide handlers still run */
+            conns_free();
+            act_misuse = 0;
+            handler_fire_timed(g_ctx);
+            conns_new();
+            fprintf(out, act_misuse ? "= bad" : "= ok");
         } else if (n == 3 && !strcmp(tok[0], "state") && (c = num(tok[1], NC)) >= 0 &&
                    (!strcmp(tok[2], "connected") || !strcmp(tok[2], "disconnected"))) {
             hc[c]->conn->state = tok[2][0] == 'c' ? XMPP_STATE_CONNECTED : XMPP_STATE_DISCONNECTED;
